@@ -89,10 +89,17 @@ def corrupt(r, ast_story):
     if not sites:
         return None
     it, nested, is_jump = r.choice(sites)
-    kind = r.choice(["unknown-target", "surplus", "unknown-kw", "missing", "duplicate", "at-target", "kw-optional-only", "gap", "gap"])
+    kind = r.choice(["unknown-target", "surplus", "unknown-kw", "missing", "duplicate", "at-target", "kw-optional-only", "gap", "gap", "paren-string", "paren-string"])
     params = {p["name"]: p["params"] for p in ast_story["passages"]}
     ps = params.get(it["target"], [])
-    if kind == "gap":
+    if kind == "paren-string":
+        # a string argument holding an unbalanced parenthesis: one argument per parameter, all of them fine for Python
+        if not ps:
+            return None
+        vals = [r.choice(['"fine :)"', '":("', "')'", '"a) b"', '"(("'])] + ["1"] * (len(ps) - 1)
+        r.shuffle(vals)
+        it["args"] = ", ".join(vals)
+    elif kind == "gap":
         # a blank between the passage name and its argument list ("Stall (3)"): correct arguments, unusual spelling
         if not ps:
             return None
@@ -283,7 +290,7 @@ def _chunk(arg):
     items = []
     for idx in idxs:
         r = rng_for(seed, "graph", idx)
-        a = gen_story.generate(r.randrange(1 << 30), dict(params=0.7, long_params=0.7, block_jumps=0.5, top_jumps=0.4, block_choices=0.6, join=0.5, join_arrows=0.5, hooks=0.3, empty_passage=0.5, odd_names=0.35))
+        a = gen_story.generate(r.randrange(1 << 30), dict(params=0.7, long_params=0.7, block_jumps=0.5, top_jumps=0.4, block_choices=0.6, join=0.5, join_arrows=0.5, hooks=0.3, empty_passage=0.5, odd_names=0.35, str_args=0.15))
         corrupted = None
         if r.random() < 0.45:
             corrupted = corrupt(r, a)
@@ -301,6 +308,9 @@ def _chunk(arg):
             story = corr_play.compile_source(src)
         except Exception as e:  # noqa
             out["rejected"] += 1
+            if not isinstance(e, (SyntaxError, ValueError)):
+                out["f12"].append({"cls": None, "what": f"a call site the compiler does not accept ({corrupted}) is answered with {type(e).__name__}: {str(e)[:100]} "
+                                                        "instead of a diagnostic", "family": "c12-gen", "source": src})
             if corrupted:
                 k = f"{corrupted[0]}@{corrupted[1]}:rejected"
                 out["corrupt"][k] = out["corrupt"].get(k, 0) + 1
@@ -313,7 +323,7 @@ def _chunk(arg):
             k = f"{corrupted[0]}@{corrupted[1]}:accepted"
             out["corrupt"][k] = out["corrupt"].get(k, 0) + 1
         ops, real = corr_play.walk(r, story, n_ops, "main", dict(choose=85, goto=3, undo=4, redo=2, read=4, bad=2, save=0, load=0, fresh=0, loadbad=0),
-                                   prefer=({corrupted[2]} if corrupted and corrupted[1] == "nested-choice" else None))
+                                   prefer=({corrupted[2]} if corrupted and corrupted[1] in ("nested-choice", "top-choice") else None))
         todo.append((src, story, {"ops": ops, "real": real}, corrupted))
     models = run_driver([{"kind": "graph", "id": f"g{i}", "story": t[1]} for i, t in enumerate(todo)]) if todo else []
     for (src, story, wc, corrupted), m in zip(todo, models):
